@@ -7,7 +7,7 @@
 //	            fn 2 (t #bytes) -> dec-outcome                      (arbitrary / malformed bytes)
 //	            fn 3 t -> (ByteSize LengthBytes reflect-kind name)
 //	            fn 4 (which arg) -> asetime helper result
-//	            fn 9 (day) -> (ticks failures)                      (thorough: all ticks of a day, Go side)
+//	            fn 9 (label n) -> (n failures)                      (thorough: sweeps checked on the Go side only)
 //	-prop C05:  fn 1 (t len v ref) -> (enc-outcome dref) with ref = () or (#reference-bytes of the harness' own codec),
 //	            dref = () or the implementation's decode outcome of the reference bytes
 //	            fn 4 (which arg) -> asetime helper result
@@ -90,6 +90,33 @@ func rawDecode(t asetypes.DataType, bs []byte, tag string) {
 		return
 	}
 	out.Case(2, sx.L{sx.I(int64(t)), sx.B(bs)}, decode(t, bs), tag)
+}
+
+// goSide: thorough tier, value checked on the Go side only against the harness' reference codec (which the Coq
+// reference checks on every case that goes through the model): bytes equal, decode re-encodes to the same bytes
+func goSide(t asetypes.DataType, n int, v val) bool {
+	_, bs, ok := encode(t, v, n)
+	rb, rok := refEncode(t, n, v)
+	if !ok || !rok || string(bs) != string(rb) {
+		return false
+	}
+	ok = false
+	func() {
+		defer func() { recover() }()
+		x, err := t.GoValue(binary.LittleEndian, bs)
+		if err != nil {
+			return
+		}
+		tm, isTime := x.(time.Time)
+		if !isTime {
+			return
+		}
+		u := tm.UTC()
+		back := vTime(u.Year(), int(u.Month()), u.Day(), u.Hour(), u.Minute(), u.Second(), u.Nanosecond())
+		rb2, rok2 := refEncode(t, n, back)
+		ok = rok2 && string(rb2) == string(bs)
+	}()
+	return ok
 }
 
 // ---------------------------------------------------------------- helpers of asetime (fn 4)
@@ -553,22 +580,41 @@ var noon = [4]int{12, 34, 56, 789000000}
 func genDays() {
 	y, m, d := 1, 1, 1
 	idx := 0
+	sweepN, sweepFails := 0, 0
+	defer func() {
+		if tier == "thorough" {
+			out.Case(9, sx.L{sx.B([]byte("DATETIME every day 0001-01-01..9999-12-31 at 00:00 and 12:34:56.789")), sx.I(int64(sweepN))},
+				sx.Ints(int64(sweepN), int64(sweepFails)), "daysweep;go-side-only")
+		}
+	}()
 	for y <= 9999 {
 		last := d == monthLen(y, m)
-		sel := tier == "thorough" || denseYear(y) || d == 1 || last || (m == 2 && d == 29) ||
-			(y >= 1580 && y <= 1760 && idx%3 == 0)
+		// month boundaries: the last day of every month of every year; the first day of January and March of every
+		// year and of every month in every 4th year (quick tier)
+		sel := tier == "thorough" || denseYear(y) || last || (m == 2 && d == 29) ||
+			(d == 1 && (m == 1 || m == 3 || y%4 == 0)) || (y >= 1580 && y <= 1760 && idx%3 == 0)
 		if sel {
 			dense := tier == "thorough" || denseYear(y) || (y >= 1580 && y <= 1760)
 			dv := vTime(y, m, d, 0, 0, 0, 0)
 			nv := vTime(y, m, d, noon[0], noon[1], noon[2], noon[3])
 			value(asetypes.DATE, 4, dv, "date;DATE;midnight")
-			if dense || last && (y%5 == 0 || y%100 == 99 || y%100 == 1) {
+			viaModel := tier != "thorough" || denseYear(y) || idx%4 == 0
+			if tier == "thorough" { // every day at both times on the Go side
+				sweepN += 2
+				if !goSide(asetypes.DATETIME, 8, nv) {
+					sweepFails++
+				}
+				if !goSide(asetypes.DATETIME, 8, dv) {
+					sweepFails++
+				}
+			}
+			if viaModel && (dense || last && (y%5 == 0 || y%100 == 99 || y%100 == 1)) {
 				value(asetypes.DATETIME, 8, nv, "datetime;DATETIME;12:34:56.789")
 			}
-			if tier == "thorough" || denseYear(y) || d == 1 && y%5 == 0 {
+			if viaModel && (tier == "thorough" || denseYear(y) || d == 1 && y%5 == 0) {
 				value(asetypes.DATETIME, 8, dv, "datetime;DATETIME;midnight")
 			}
-			if dense && d <= 3 || y%97 == 0 && d == 1 {
+			if (tier != "thorough" || denseYear(y) || y%10 == 0) && (dense && d <= 3 || y%97 == 0 && d == 1) {
 				value(asetypes.DATE, 4, nv, "date;DATE;with-time-part")
 				value(asetypes.DATEN, 4, dv, "date;DATEN")
 				value(asetypes.DATETIMEN, 8, nv, "datetime;DATETIMEN;8")
@@ -578,7 +624,7 @@ func genDays() {
 				helpersOfTime(dv, "helper;day")
 				helpersOfTime(bv, "helper;day-last-microsecond")
 			}
-			if (last || d == 1 || (m == 2 && d >= 28)) && (tier == "thorough" || denseYear(y) || y%25 == 0 || y%100 == 99) {
+			if (m == 2 && d == 29) || (last || d == 1 || (m == 2 && d >= 28)) && (tier == "thorough" || denseYear(y) || y%25 == 0 || y%100 == 99) {
 				helpersOfTime(nv, "helper;month-boundary")
 			}
 		}
@@ -612,7 +658,7 @@ func genTicks() {
 	}
 	nr := 20000
 	if tier == "thorough" {
-		nr = 400000
+		nr = 100000
 	}
 	for i := 0; i < nr; i++ {
 		ks = append(ks, rng.Intn(dayTicks))
@@ -677,7 +723,7 @@ func genTicks() {
 	// random microseconds of random days
 	nm := 20000
 	if tier == "thorough" {
-		nm = 500000
+		nm = 150000
 	}
 	for i := 0; i < nm; i++ {
 		y, m := rng.Range(1, 9999), rng.Range(1, 12)
@@ -710,11 +756,13 @@ func genSmall() {
 	y, m, d := 1900, 1, 1
 	for day := 0; day <= 65535; day++ {
 		var mins []int
-		if day == 0 || day == 65535 || day == 36524 || (tier == "thorough" && day%100 == 0) {
+		if day == 0 || day == 65535 || day == 36524 || (tier == "thorough" && day%1000 == 0) {
 			for k := 0; k < 1440; k += 1 {
 				mins = append(mins, k)
 			}
-		} else if day < 3 || day > 65532 || day%1000 == 0 || tier == "thorough" {
+		} else if tier == "thorough" && day%1000 != 0 {
+			mins = []int{0, 1439, rng.Intn(1440), rng.Intn(1440), rng.Intn(1440), rng.Intn(1440)}
+		} else if day < 3 || day > 65532 || day%1000 == 0 {
 			mins = []int{0, 1439}
 			for k := 0; k < 20; k++ {
 				mins = append(mins, rng.Intn(1440))
@@ -830,7 +878,7 @@ func genNullsAndTables() {
 // thorough only: every 1/300 s tick of whole days, checked on the Go side (the model is
 // checked on the sampled ticks above); reported as counts
 func genTickSweep() {
-	if tier != "thorough" || prop != "C04" {
+	if tier != "thorough" {
 		return
 	}
 	for _, day := range [][3]int{{2000, 1, 1}, {1899, 12, 31}} {
@@ -853,7 +901,7 @@ func genTickSweep() {
 				fails++
 			}
 		}
-		out.Case(9, sx.Ints(int64(day[0]), int64(day[1]), int64(day[2])), sx.Ints(int64(n), int64(fails)), "ticksweep;go-side-only")
+		out.Case(9, sx.L{sx.Ints(int64(day[0]), int64(day[1]), int64(day[2])), sx.I(int64(n))}, sx.Ints(int64(n), int64(fails)), "ticksweep;go-side-only")
 	}
 }
 
